@@ -877,24 +877,29 @@ def run(ctx):
     else:
         ctx.notes.append("shift probe program failed under Wa: %s %s" % (wst, werr[-200:]))
     # probe: global initialisers, the two root causes in wir aBasic.Bin, independent of the generated selection
-    gp = ("package main\n\nvar a int64 = 1000\nvar b int64 = -33\nvar c uint64 = 9223372036854775808\nvar d uint64 = 9223372036854775807\n"
-          "var e int32 = -2147483648\nvar r rune = -1\nvar u uint32 = 4294967295\nvar h uint16 = 65535\nvar q uint8 = 255\n\n"
-          "func main() {\n\tprintln(a, b, c, d, e, int64(r), u, h, q)\n}\n")
+    gp = ("package main\n\ntype P struct {\n\ta int64\n\tb uint64\n}\n\nvar a int64 = 1000\nvar b int64 = -33\nvar c uint64 = 9223372036854775808\nvar d uint64 = 9223372036854775807\n"
+          "var e int32 = -2147483648\nvar r rune = -1\nvar u uint32 = 4294967295\nvar h uint16 = 65535\nvar q uint8 = 255\n"
+          "var ga = [2]int64{1000, -1000}\nvar gp = P{1000, 18446744073709551615}\n\n"
+          "func main() {\n\tprintln(a, b, c, d, e, int64(r), u, h, q, ga[0], ga[1], gp.a, gp.b)\n}\n")
     wst, wlines, werr = run_wa(ctx, warun, gp, "probe_global")
     evaluations += 1
     if wst == "ok" and wlines:
         got = wlines[0].split()
-        want = ["1000", "-33", "9223372036854775808", "9223372036854775807", "-2147483648", "-1", "4294967295", "65535", "255"]
-        if got[:2] != want[:2]:
-            ctx.violation("global-init:int64:parseint-bitsize-6", "package-level `var a int64 = 1000; var b int64 = -33` print %s (wir aBasic.Bin parses the int64 text with bitSize 6)" % got[:2],
+        want = ["1000", "-33", "9223372036854775808", "9223372036854775807", "-2147483648", "-1", "4294967295", "65535", "255",
+                "1000", "-1000", "1000", "18446744073709551615"]
+        pick = lambda l, idx: [l[i] if i < len(l) else None for i in idx]
+        i64i, u64i, runei = [0, 1, 9, 10, 11], [2, 12], [5]
+        rest = [i for i in range(len(want)) if i not in i64i + u64i + runei]
+        if pick(got, i64i) != pick(want, i64i):
+            ctx.violation("global-init:int64:parseint-bitsize-6", "package-level int64 initialisers (scalar 1000, -33; array {1000,-1000}; struct field 1000) print %s "
+                          "(wir aBasic.Bin parses the int64 text with bitSize 6)" % pick(got, i64i), {"program": gp, "wa": wlines[0], "expected": " ".join(want)})
+        if pick(got, u64i) != pick(want, u64i):
+            ctx.violation("global-init:uint64:ge-2^63-parsed-as-0", "package-level uint64 initialisers >= 2^63 (scalar, struct field) print %s "
+                          "(getValue renders the value as a negative int, Bin's ParseUint fails -> 0)" % pick(got, u64i), {"program": gp, "wa": wlines[0], "expected": " ".join(want)})
+        if pick(got, runei) != pick(want, runei):
+            ctx.violation("global-init:rune:negative-parsed-as-0", "package-level `var r rune = -1` prints %s (wir aBasic.Bin parses rune constants with ParseUint)" % pick(got, runei),
                           {"program": gp, "wa": wlines[0], "expected": " ".join(want)})
-        if got[2:3] != want[2:3]:
-            ctx.violation("global-init:uint64:ge-2^63-parsed-as-0", "package-level `var c uint64 = 9223372036854775808` prints %s (getValue renders the value as a negative int, Bin's ParseUint fails -> 0)" % got[2:3],
-                          {"program": gp, "wa": wlines[0], "expected": " ".join(want)})
-        if got[5:6] != want[5:6]:
-            ctx.violation("global-init:rune:negative-parsed-as-0", "package-level `var r rune = -1` prints %s (wir aBasic.Bin parses rune constants with ParseUint)" % got[5:6],
-                          {"program": gp, "wa": wlines[0], "expected": " ".join(want)})
-        if got[3:5] + got[6:] != want[3:5] + want[6:]:
+        if pick(got, rest) != pick(want, rest) or len(got) != len(want):
             ctx.violation("global-init:other:wrong-value", "global initialisers print %s, expected %s" % (got, want), {"program": gp, "wa": wlines[0]})
     else:
         ctx.violation("global-init:probe-failed", "global initialiser probe fails under Wa: %s %s" % (wst, werr[-200:]), {"program": gp})
